@@ -212,10 +212,8 @@ def loadSession (toks : List String) : SessRes :=
         -- `Sender::new` treats interleave_blocks = 0 as 1 (/repo 0805b7e)
         let cfg : SessCfg := { fdtScheme := doti.sch, fdtP := doti.p, w := max 1 w, objs := objs, fdts := fdts }
         if mismatch then .out "refusal-mismatch" none else
-        -- block creation failing on a first block: debug_assert panic of Sender::read
-        if objs.any (fun o => senderPanics (objEnc cfg o false)) || fdts.any (fun f => senderPanics (fdtEnc cfg f)) then
-          .out "PANIC" none
-        else
+        -- (block creation failing on the first block of a non-empty object: the source emits nothing,
+        --  /repo 6808824 - `emitLoop`; it used to be a debug_assert panic of Sender::read)
         match mkSrcs cfg with
         | none => .out "hang" none
         | some srcs =>
@@ -239,8 +237,10 @@ def loadSession (toks : List String) : SessRes :=
             let fdtPk := (List.range maxId).map (fun k => match fdts.find? (fun f => f.id == k + 1) with
               | some f => trLen (Slot.fdt f.id) | none => 1)
             let mux? := (look kv "mux").bind (fun m => (m.splitOn ",").mapM (·.toNat?))
+            -- (a source that emits nothing is outside the scheduler model's "n packets per transfer" abstraction)
+            let silent := srcs.any (fun x => x.tr.isEmpty)
             let sd : String :=
-              if stream.length > 6000 then "" else
+              if stream.length > 6000 || silent then "" else
               match adds, (look kv "mode"), (look kv "fcar").bind parseCar, mux?, (look kv "dt").bind (·.toNat?),
                     (look kv "idle").bind (·.toNat?) with
               | some adds, some mode, some (some fcar), some mux, some dt, some idle =>
